@@ -47,6 +47,18 @@ pub(crate) struct GetSlot {
     after_close: bool,
     /// was waiting for a slot (pending without an active call) when Close completed
     waiting_at_close: bool,
+    /// state before the call, valid while nothing but this call touched the pool
+    iso: Option<Iso>,
+}
+
+#[derive(Clone, Debug)]
+pub(crate) struct Iso {
+    epoch: u64,
+    snap: ManagedSnapshot,
+    status: Status,
+    idle: Vec<u32>,
+    /// nobody else was inside get() when the call started
+    alone: bool,
 }
 
 pub(crate) struct HeldObj {
@@ -110,6 +122,7 @@ pub struct Interp<'a> {
     pub(crate) events_for_rest: u32,
     pub(crate) nt: bool,
     pub(crate) c03_nt: bool,
+    pub(crate) disturb: u64,
     pub(crate) c06_close_step: Option<usize>,
     // C07 ideal model
     pub c07: crate::c07::Model,
@@ -180,6 +193,7 @@ impl<'a> Interp<'a> {
             events_for_rest: 0,
             nt: false,
             c03_nt: false,
+            disturb: 0,
             c06_close_step: None,
             c07: crate::c07::Model::new(case.cfg.max_size as usize),
             n_steps_run: 0,
@@ -369,11 +383,15 @@ impl<'a> Interp<'a> {
         if !self.parked.is_empty() && !matches!(s, Step::Resume { .. } | Step::Status) {
             self.overlap = true;
         }
+        if !matches!(s, Step::OpenGate { .. } | Step::Status | Step::Poll { .. } | Step::PollWoken { .. } | Step::Cancel { .. }) {
+            self.disturb += 1;
+        }
         match s {
             Step::StartGet { zero_wait, pause } => self.start_get(zero_wait, pause),
             Step::Poll { g, pause } => {
                 let p = self.pending_gets();
                 if let Some(i) = pick(g, p.len()) {
+                    self.touch_only(p[i]);
                     self.poll_get(p[i], pause);
                 }
             }
@@ -384,12 +402,14 @@ impl<'a> Interp<'a> {
                     .filter(|i| self.gets[*i].flag.is_set())
                     .collect();
                 if let Some(&i) = p.first() {
+                    self.touch_only(i);
                     self.poll_get(i, pause);
                 }
             }
             Step::Cancel { g, pause } => {
                 let p = self.pending_gets();
                 if let Some(i) = pick(g, p.len()) {
+                    self.touch_only(p[i]);
                     self.cancel_get(p[i], pause);
                 }
             }
@@ -421,6 +441,81 @@ impl<'a> Interp<'a> {
                 }
             }
             Step::DropPool => self.drop_pool(),
+        }
+    }
+
+    /// only get #g is about to touch the pool: every other isolated call is disturbed
+    pub(crate) fn touch_only(&mut self, g: usize) {
+        self.disturb += 1;
+        let d = self.disturb;
+        if let Some(iso) = self.gets[g].iso.as_mut() {
+            if iso.epoch + 1 == d {
+                iso.epoch = d;
+            }
+        }
+    }
+
+    /// C03 differential: the pool after an abandoned, undisturbed get() vs before it
+    pub(crate) fn iso_check(&mut self, g: usize, how: &str) {
+        let Some(iso) = self.gets[g].iso.clone() else { return };
+        if iso.epoch != self.disturb || !self.parked.is_empty() {
+            return;
+        }
+        let (Some(s1), Some(st1)) = (self.snapshot(), self.status()) else { return };
+        let idle1 = self.idle_order();
+        let op = self.gets[g].op;
+        let (d_all, bad_objs): (Vec<u32>, Vec<String>) = {
+            let w = self.world.w();
+            let mut d: Vec<u32> = vec![];
+            for c in w.calls.iter().filter(|c| c.op == op) {
+                let id = match (c.kind, c.res) {
+                    (CallKind::Create, Some(CallRes::Created(id))) => Some(id),
+                    _ => c.obj,
+                };
+                if let Some(id) = id {
+                    if !d.contains(&id) {
+                        d.push(id);
+                    }
+                }
+            }
+            let bad = d
+                .iter()
+                .filter_map(|id| {
+                    let o = &w.objs[*id as usize];
+                    if !o.destroyed || o.detaches != 1 {
+                        Some(format!("object {} destroyed={} detaches={}", id, o.destroyed, o.detaches))
+                    } else {
+                        None
+                    }
+                })
+                .collect();
+            (d, bad)
+        };
+        let d_pre: Vec<u32> = d_all.iter().copied().filter(|id| iso.idle.contains(id)).collect();
+        let expect_idle: Vec<u32> = iso.idle.iter().copied().filter(|id| !d_pre.contains(id)).collect();
+        let s0 = iso.snap;
+        let st0 = iso.status;
+        let mut bad: Vec<String> = bad_objs;
+        if s1.users != s0.users || s1.permits != s0.permits || s1.max_size != s0.max_size || s1.closed != s0.closed {
+            bad.push(format!("a slot or user count stayed reserved: before {:?}, after {:?}", s0, s1));
+        }
+        if s1.size + d_pre.len() != s0.size || s1.idle + d_pre.len() != s0.idle {
+            bad.push(format!("size / idle not reduced by exactly the {} discarded objects: before {:?}, after {:?}", d_pre.len(), s0, s1));
+        }
+        if idle1 != expect_idle {
+            bad.push(format!("idle queue is {:?}, expected {:?} (before {:?}, discarded {:?})", idle1, expect_idle, iso.idle, d_all));
+        }
+        // available / waiting are derived from users - size: with other callers inside
+        // get() they shift with size, so they are compared only when the call was alone
+        if st1.max_size != st0.max_size
+            || st1.size + d_pre.len() != st0.size
+            || (iso.alone && (st1.waiting != st0.waiting || st1.available + d_pre.len() != st0.available))
+        {
+            bad.push(format!("status() is {:?}, earlier {:?}, {} objects discarded", st1, st0, d_pre.len()));
+        }
+        self.labels.push(format!("iso-differential:{}", how));
+        for b in bad {
+            self.flag("abandoned-get-left-traces", &["C03"], format!("get #{} {}: {}", g, how, b));
         }
     }
 
@@ -463,7 +558,22 @@ impl<'a> Interp<'a> {
         } else {
             None
         };
+        let iso = if pause.is_none() && self.quiescent() {
+            match (self.snapshot(), self.status()) {
+                (Some(snap), Some(status)) => Some(Iso {
+                    epoch: self.disturb,
+                    snap,
+                    status,
+                    idle: self.idle_order(),
+                    alone: snap.users == self.held.len(),
+                }),
+                _ => None,
+            }
+        } else {
+            None
+        };
         self.gets.push(GetSlot {
+            iso,
             op,
             fut: Some(fut),
             flag: WakeFlag::new(),
@@ -648,6 +758,7 @@ impl<'a> Interp<'a> {
             }
         }
         self.validate_get(g, &GetEnd::Panicked);
+        self.iso_check(g, "panicked");
     }
 
     pub(crate) fn get_done(&mut self, g: usize, res: GetResult) {
@@ -790,6 +901,7 @@ impl<'a> Interp<'a> {
     pub(crate) fn cancel_done(&mut self, g: usize) {
         self.gets[g].state = GState::Done(GetEnd::Cancelled);
         self.validate_get(g, &GetEnd::Cancelled);
+        self.iso_check(g, "cancelled");
     }
 
     pub(crate) fn return_obj(&mut self, i: usize, pause: Option<u8>) {
@@ -1664,6 +1776,7 @@ impl<'a> Interp<'a> {
     }
 
     pub(crate) fn finish(&mut self) {
+        self.disturb += 2; // no isolated call survives the settling phase
         self.note("finish: resume parked operations".into());
         while !self.parked.is_empty() && self.violation.is_none() && self.inconclusive.is_none() {
             self.resume(0, None);
